@@ -397,6 +397,10 @@ impl Inst {
         if !enr_update {
             cb.disable_enr_update();
         }
+        // every third local identity bans for ever (`ban_duration = None`), the others for an hour
+        if seed % 3 == 0 {
+            cb.ban_duration(None);
+        }
         let config = cb.build();
         let key = key_of(seed);
         let local_id = enr.node_id().raw();
